@@ -233,15 +233,17 @@ RdwrSense ==
     /\ Step("Sense")
     /\ UNCHANGED <<left, polls, envk, gone, cb, ret, led, termSeen>>
 
-RdwrDiscover ==
+\* activated: nfc.tag.activate() returned a tag (always, unless the activation is disturbed - env tagX)
+RdwrDiscoverP(activated) ==
     /\ pc = "rdwr_disc"
+    /\ activated \/ cfg.env = "tagX"
     /\ cb' = Append(cb, CbRec("discover", "rdwr", cfg.disc["rdwr"]))
-    /\ IF cfg.disc["rdwr"] /\ found = "tag"
-       THEN \/ Goto("rdwr_conn") /\ UNCHANGED role                      \* nfc.tag.activate() returned a tag
-            \/ cfg.env = "tagX" /\ Enter(AfterPhase("rdwr"))            \* disturbed activation: None, tag skipped
-       ELSE Enter(AfterPhase("rdwr"))                 \* refused, or a P2P device no tag type activates
+    /\ IF cfg.disc["rdwr"] /\ found = "tag" /\ activated
+       THEN Goto("rdwr_conn") /\ UNCHANGED role
+       ELSE Enter(AfterPhase("rdwr"))     \* refused / a P2P device no tag type activates / disturbed activation
     /\ Step("Discover")
     /\ UNCHANGED <<left, polls, envk, gone, found, ret, led, err, termSeen>>
+RdwrDiscover == \E activated \in BOOLEAN : RdwrDiscoverP(activated)
 
 RdwrConnect ==
     /\ pc = "rdwr_conn"
